@@ -81,9 +81,25 @@ theorem closing_saves_the_end_of_the_last_record (cfg : Cfg) (d : DST) (L A : Na
     ts saved _ hi.nh hi.len hi.pkt hi.at_ (hi.sv ho) ho trivial rfl
   exact ⟨h1.1, h1.2, h2.pkt, h2.at_, h2.isOpen⟩
 
+/-- the same along the log of every history: each closing that took effect (`closed cs …` ghost event) saved as content
+    size `cs` exactly the end of the last record of its packet — or of the packet header and context when the packet held
+    no record (`hw` of the older part of the log) — and `cs` is at most the packet size -/
+theorem every_closing_saves_the_end_of_the_last_record (cfg : Cfg) (d : DST) (L A : Nat) (hcfg : CfgOK A cfg d)
+    (hsmall : 8 * L + A ≤ 2 ^ 32) (p : Plat) (hsb : ∀ x ∈ p.setBufs, x.2 = L)
+    (hhdr : ∀ args ∈ openArgsOf p.openArgs, hdrEndN cfg d args ≤ 8 * L)
+    (ops : List Op) (hops : OpsSmall d L A ops)
+    (pre : List Ev) (cs sn dc : Nat) (rest : List Ev)
+    (hlog : (runOps cfg d ops (rtInit L p)).log = pre ++ Ev.closed cs sn dc :: rest) :
+    cs = hw rest ∧ cs ≤ 8 * L := by
+  have h := (runOps_pinv cfg d L A p.openArgs hcfg hsmall hhdr ops hops (rtInit L p)
+    (rtInit_pinv d L A hcfg.Apos hsmall p hsb)).chain
+  rw [hlog] at h
+  exact ChainOK.closing pre cs sn dc rest h
+
 #print axioms closedOK_closings
 #print axioms closed_snapshot_exact
 #print axioms closed_sequence_exact
 #print axioms sequence_number_exact
 #print axioms closing_saves_the_end_of_the_last_record
+#print axioms every_closing_saves_the_end_of_the_last_record
 end BVM
